@@ -3,6 +3,23 @@ import BbRe.Lemmas.SchedInvPrim
 namespace BbRe.Lemmas.SchedInv
 open BbRe.Sched
 
+@[simp] theorem isTerm_succeeded (q l : Nat) (b) : isTerm q (.learnerSucceeded l b) = (q == l) := by
+  simp only [isTerm]; exact BEq.comm
+@[simp] theorem isTerm_failed (q l : Nat) (b n) : isTerm q (.learnerFailed l b n) = (q == l) := by
+  simp only [isTerm]; exact BEq.comm
+@[simp] theorem isTerm_abandoned (q l : Nat) : isTerm q (.learnerAbandoned l) = (q == l) := by
+  simp only [isTerm]; exact BEq.comm
+@[simp] theorem isIssue_succeeded_some (q l n : Nat) : isIssue q (.learnerSucceeded l (some n)) = (q == n) := by
+  simp only [isIssue]; exact BEq.comm
+@[simp] theorem isIssue_failed_some (q l n : Nat) (b) : isIssue q (.learnerFailed l b (some n)) = (q == n) := by
+  simp only [isIssue]; exact BEq.comm
+@[simp] theorem isIssue_select (q n : Nat) : isIssue q (.selSelect n) = (q == n) := by
+  simp only [isIssue]; exact BEq.comm
+@[simp] theorem isIssue_succeeded_none (q l : Nat) : isIssue q (.learnerSucceeded l none) = false := rfl
+@[simp] theorem isIssue_failed_none (q l : Nat) (b) : isIssue q (.learnerFailed l b none) = false := rfl
+@[simp] theorem isIssue_abandoned (q l : Nat) : isIssue q (.learnerAbandoned l) = false := rfl
+@[simp] theorem isTerm_select (q n : Nat) : isTerm q (.selSelect n) = false := rfl
+
 theorem LogInv.terminal {ts ts' nl evs} (h : LogInv ts nl evs) {l : Nat} {e : Event} (hl : Held ts l)
     (ht : ∀ l', isTerm l' e = (l' == l)) (hi : ∀ l', isIssue l' e = false)
     (hh : ∀ l', Held ts' l' → Held ts l' ∧ l' ≠ l) : LogInv ts' nl (e :: evs) := by
